@@ -9,12 +9,14 @@ from harness.impl import fordrun as F
 
 IMPORTS = "From Ford Require Import Base.Str Sem.Access Corr.C04."
 CASE_T = "case"
-THEOREMS = ["C04_statement_refuted", "C04_partial", "C04_refuted_late_default", "C04_refuted_protected_private",
-            "C04_refuted_protected_lost", "C04_refuted_repeated_generic", "C04_refuted_operator_spelling",
-            "C04_protected_recorded", "C04_types", "C04_types_in_scope", "C04_submodule_private",
-            "C04_interface_procs", "C04_raises_iff_misplaced"]
+THEOREMS = ["C04_statement_refuted", "C04_partial", "C04_refuted_protected_private", "C04_refuted_protected_lost",
+            "C04_protected_recorded", "C04_constructor", "C04_same_identifier", "C04_fixed_late_default",
+            "C04_fixed_repeated_generic", "C04_fixed_operator_spelling", "C04_types", "C04_types_in_scope",
+            "C04_submodule_private", "C04_interface_procs", "C04_raises_iff_misplaced"]
 ALL = ["public", "private", "protected"]
-REGIONS = {1: "late-default", 2: "protected-single-keyword", 4: "repeated-identifier", 8: "blank-in-identifier"}
+# region bits of Sem/Access.v: 2 = the recorded finding; 4 = the identifier has another attribute-carrying
+# declaration (constructor interfaces): outside C04_partial but no finding — a disagreement there is a violation
+REGIONS = {2: "protected-single-keyword"}
 
 # ---------------------------------------------------------------------------------------------- implementation
 
@@ -96,7 +98,7 @@ def judge_cases(chk, cases, texts, impl, what):
                    "meaning": "bit0 model!=impl, bit1 impl violates the Spec, bits>=2 region mask " + str(REGIONS)}
         if code & 2:
             chk.disagreements += 1
-            if reg == 0:
+            if reg == 0 or reg & ~sum(REGIONS):
                 stats["spec-violation-outside-regions"] += 1
                 chk.violation("failing-input", payload, True)
             else:
@@ -107,7 +109,7 @@ def judge_cases(chk, cases, texts, impl, what):
                             chk.violation("failing-input", payload, True)
         if code & 1:
             stats["model-mismatch"] += 1
-            if not (code & 2 and reg == 0):
+            if not (code & 2 and (reg == 0 or reg & ~sum(REGIONS))):
                 if stats["model-mismatch"] <= 3:      # the model's answer, for the first few replays only
                     payload["model"] = chk.coq_eval(IMPORTS, f"model_of {terms[idx]}")
                 chk.violation("broken-correspondence", payload, False)
@@ -274,7 +276,7 @@ def html_check(chk, rng, nproj):
 
 # ---------------------------------------------------------------------------------------------- findings
 
-FINDINGS = {
+WITNESSES = {
     "late-default": ("module m\n  integer :: x\n  type t\n    integer :: c\n  end type\n  private\nend module m\n",
                      lambda e: dict(((k, n), p) for k, o, n, p in e["m"]).get(("KVar", "x")) == "public"
                      and dict(((k, n), p) for k, o, n, p in e["m"]).get(("KType", "t")) == "public"),
@@ -295,10 +297,22 @@ FINDINGS = {
 }
 
 
+FINDINGS = {"protected-single-keyword"}          # still open
+REGRESSIONS = {"late-default": "a PRIVATE statement after a declaration is ignored for it",
+               "repeated-identifier": "an access statement reaches only the first of several entities of a name",
+               "blank-in-identifier": "`public :: operator(+)` does not reach `interface operator (+)`"}
+
+
 def replay_findings(chk):
-    for key, (src, still) in FINDINGS.items():
+    """open findings: is the witness still failing?  repaired ones: the witness must not fail again"""
+    for key, (src, still) in WITNESSES.items():
         r = parse_texts({"src/m.f90": src})
-        chk.known(key, r[0] != "EXC" and bool(still(r[0])))
+        fails = r[0] != "EXC" and bool(still(r[0]))
+        if key in FINDINGS:
+            chk.known(key, fails)
+        elif fails:
+            chk.violation("failing-input", {"what": "a repaired defect is back: " + REGRESSIONS[key],
+                                            "fortran": src, "impl": r[0].get("m") if r[0] != "EXC" else None}, True)
 
 
 # ---------------------------------------------------------------------------------------------- protocol
@@ -341,6 +355,16 @@ def run(chk):
                                "domain": "kind(10) x default{none,public,private}x{early,late} x attribute"
                                          "{none,public,private,protected} x statement{none,public,private}x"
                                          "{before,after}; inexpressible combinations omitted"}
+
+    # (1b) constructor interfaces: the generic interface named after a derived type has the type's accessibility
+    cases = A.constructor_cases(rng)
+    texts, impl = run_cases(chk, cases, rng)
+    for c in cases:
+        chk.count(("constructor", tuple(sorted((k, str(v)) for k, v in c["ctor"].items()))),
+                  sample={"constructor": c["ctor"], "fortran": texts[c["name"]], "impl": impl[c["name"]]})
+    st = judge_cases(chk, cases, texts, impl, "constructor interface of a derived type")
+    if st is not None:
+        stats.update({f"constructor:{k}": v for k, v in st.items()})
 
     # (2) random modules and submodules: valid stream, then malformed stream
     n_valid, n_bad = (500, 250) if quick else (8000, 4000)
